@@ -58,6 +58,47 @@ impl Term {
         }
     }
 
+    /// names of the parameters that substitution would leave in place: unbound
+    /// ones, and map key parameters bound to something else than an integer
+    /// or a string
+    pub(super) fn remaining_parameters(
+        &self,
+        parameters: &HashMap<String, Option<Term>>,
+        remaining: &mut Vec<String>,
+    ) {
+        match self {
+            Term::Parameter(name) => {
+                if !matches!(parameters.get(name), Some(Some(_))) {
+                    remaining.push(name.to_string());
+                }
+            }
+            Term::Set(s) => {
+                for term in s {
+                    term.remaining_parameters(parameters, remaining);
+                }
+            }
+            Term::Array(a) => {
+                for term in a {
+                    term.remaining_parameters(parameters, remaining);
+                }
+            }
+            Term::Map(m) => {
+                for (key, term) in m {
+                    if let MapKey::Parameter(name) = key {
+                        if !matches!(
+                            parameters.get(name),
+                            Some(Some(Term::Integer(_))) | Some(Some(Term::Str(_)))
+                        ) {
+                            remaining.push(name.to_string());
+                        }
+                    }
+                    term.remaining_parameters(parameters, remaining);
+                }
+            }
+            _ => {}
+        }
+    }
+
     pub(super) fn apply_parameters(self, parameters: &HashMap<String, Option<Term>>) -> Term {
         match self {
             Term::Parameter(name) => {
